@@ -26,6 +26,8 @@ TStep ==
      /\ Chk("reject_returns_input_exactly", ~Ev.moved => Ev.out = Ev.in)
      /\ Chk("accept_returns_input_state_with_only_the_proposed_fields_replaced", Ev.moved => Ev.out = Updated)
      /\ Chk("input_state_object_not_modified", Ev.in_after = Ev.in)
+     \* the returned state is a coherent state: quantities derived from the fields are those of its own fields
+     /\ Chk("returned_state_is_fully_up_to_date", ("derived_fresh" \in DOMAIN Ev) => Ev.derived_fresh)
      /\ Chk("one_always_accepted", FEq(Ev.acc, "1.0") => Ev.moved)
      /\ Chk("zero_never_accepted", FEq(Ev.acc, "0.0") => ~Ev.moved)
      /\ uHi' = (IF Ev.moved /\ Inner(Ev.acc) THEN FMin(uHi, Ev.acc) ELSE uHi)
